@@ -118,11 +118,6 @@ theorem tail_flush : ∀ (parts : List Part) (idx dim d0 : Nat), parts.all partO
 
 /-! ## Divergence -/
 
-/-- the same call, a different (valid) index / key -/
-def diverge : Part → Part → Bool
-  | .arr i l s, .arr i' l' s' => l == l' && s == s' && i != i' && decide (i < l) && decide (i' < l)
-  | .key k ks s, .key k' ks' s' => ks == ks' && s == s' && k != k' && ks.contains k && ks.contains k'
-  | _, _ => false
 
 theorem seg_tail_inj (kx ky : Bytes) (XA XB : Bytes)
     (hA : XA = [] ∨ ∃ t, XA = cSlash :: t) (hB : XB = [] ∨ ∃ t, XB = cSlash :: t)
